@@ -38,6 +38,13 @@ def apply_edit(d, m):
     for e in edits:
         p = os.path.join(d, e['file'])
         s = open(p).read()
+        if 'regex' in e:
+            import re
+            s2, cnt = re.subn(e['regex'], e['new'], s)
+            if cnt == 0:
+                raise RuntimeError('regex edit matches nothing in %s: %r' % (e['file'], e['regex']))
+            open(p, 'w').write(s2)
+            continue
         cnt = s.count(e['old'])
         if cnt != 1 and not e.get('all'):
             raise RuntimeError('edit anchor matches %d times in %s: %r' % (cnt, e['file'], e['old'][:60]))
